@@ -181,6 +181,25 @@ PROPS["C30"] = {
     "explanation": "all-or-nothing on syntax errors at the request entry point",
 }
 
+PROPS["C18"] = {
+    "engine": "bounded-standin",
+    "standin": ["standin_incremental"],
+    "verus": [],
+    "kani": [],
+    "level": "exploration",
+    "level_text": "BOUNDED STAND-IN ONLY - nothing is proved for this property. DerivedRelationsManager / KnowledgeGraph::publish_snapshot are state machines over HashMap<String, HashSet<String>> behind a worker thread (CBMC: no result on the smallest instance; no Verus specification for the thread/channel code). Two real StorageEngines get the same history through the public API, one with KnowledgeGraph::enable_incremental called before step 0, 1 or 2, one never; after every step the answers for three persistent rules (over base facts with two clauses, over another derived relation, recursive) from execute_query_with_rules_tuples_on must agree. Histories: every sequence of length <= 2 and every 3rd of length 3 (thorough: all of length <= 3, every 20th of length 4) over 10 steps (base inserts/deletes on two relations, rule registrations, clause removal, rule drop) that registers a rule, plus every 7th of the others.",
+    "level_note": "bounded: histories of <= 3 (thorough 4) steps over 10 step kinds, sampled as stated, 3 fixed rules, <= 5 base tuples; enable_incremental is called directly (index creation, its production trigger, is not exercised); on the current tree auto-materialisation fails on every rule (its query text `?name(..)` is rejected by the engine), so the comparison exercises invalidation and snapshot publication but never a stored materialisation",
+    "technique": "bounded stand-in tests on the real code (cargo test in a scratch copy of the working tree, module injected insert-only); the contract (answers equal a fresh evaluation) is evaluated by differential execution of the same real engine with the feature off; labelled bounded, never counted as proved; no deductive obligation exists for this property",
+    "aux_failure": "violation",
+    "functions_under_contract": [],
+    "assumptions": [
+        "nothing is proved; the stated bound is the whole coverage",
+        "the engine without incremental maintenance is taken as the fresh evaluation of the current rules over the current facts (the property's own reference)",
+    ],
+    "trusted_base": ["rustc/cargo test on the scratch copy", "witness/standin_incremental.rs"],
+    "explanation": "incremental maintenance on/off differential over bounded histories",
+}
+
 PRE_HOOKS = {"coercion_table": _pre_coercion_table}
 
 PROPS["C12"] = {
